@@ -76,7 +76,7 @@ VK_MAIN()
 #ifdef VK_SYM_NAMES
                         unsigned char ch = vin.b[vb++]; VK_ASSUME(name_char_ok(ch));
 #else
-                        unsigned char ch = (unsigned char)("Qa_7.|x-Z"[3 * s + k]);
+                        unsigned char ch = (unsigned char)("_aQ.7||-Z"[3 * s + k]);
 #endif
                         m->sequences[s]->name[k] = (char)ch;
                 }
